@@ -61,6 +61,9 @@ func shutdown(en *tl.Engine) {
 				}
 			}
 		}
+		for v := 0; v < 3; v++ {
+			en.EmptyLane(v, v) // laneSize 0
+		}
 		en.TimeoutRaces(1, 1, 1)
 		en.TimeoutRaces(2, 1, 1)
 		en.RequireTimeoutRace()
